@@ -200,12 +200,15 @@ def run(tier, seed):
         d = rnd.choice([50, 120, 300, 400, 600])
         scale = rnd.choice([0.01, 0.03, 0.2, 5.0, 30.0, 200.0])
         enc = rnd.choice(["normalscalar", "normaldiag", "normalfull", "laplace", "logt"])
+        force_small_base = len(metas) == 0          # every run has a log-normal with a base below one
+        if force_small_base:
+            enc = "logt"
         mu = np.array([[rnd.uniform(-1, 1)] for _ in range(d)])
         x = mu + np.array([[rnd.gauss(0, 1) * math.sqrt(scale)] for _ in range(d)])
         if enc == "logt":
             # a log-normal in many dimensions, evaluated where the parameters are far from 1: the Jacobian's determinant
             # under- or overflows, its logarithm (sum of the logarithms of its diagonal) does not
-            base = rnd.choice([10.0, math.e, 2.0])
+            base = 0.5 if force_small_base else rnd.choice([10.0, math.e, 2.0, 0.5, 0.1])
             centre = rnd.choice([2.5, -6.0, 8.0, 0.0])
             mu = np.array([[centre + rnd.uniform(-0.3, 0.3)] for _ in range(d)])
             var = np.array([[rnd.uniform(0.5, 1.5)] for _ in range(d)])
@@ -216,7 +219,7 @@ def run(tier, seed):
             obj = D.TransformToLogSpace(inner, base=base)
             with np.errstate(all="ignore"):
                 m = float(obj.misfit(x.copy()))
-            ref = -float(np.sum(stats.norm.logpdf(y.ravel(), loc=mu.ravel(), scale=np.sqrt(var.ravel())))) + float(np.sum(np.log(x.ravel() * math.log(base))))
+            ref = -float(np.sum(stats.norm.logpdf(y.ravel(), loc=mu.ravel(), scale=np.sqrt(var.ravel())))) + float(np.sum(np.log(x.ravel() * abs(math.log(base)))))
             stim = {"encoding": enc, "dimensions": d, "base": base, "centre": centre, "seed_case": len(metas)}
             sd.case(stim, nontrivial=True, sample=dict(stim, misfit=m, neg_log_density=ref) if len(sd.samples) < 3 else None)
             sd.count(f"encoding={enc}")
@@ -282,6 +285,7 @@ def run(tier, seed):
         small = rnd.random() < 0.5
         rep, batches = (rnd.choice([1, 2, 3]), 400) if small else (4000, 1)
         counts = np.zeros(k)
+        first = np.zeros(k)          # component of the FIRST column of each batch: every column is a draw from the mixture
         bad_shape = None
         with np.errstate(all="ignore"):
             for _ in range(batches):
@@ -291,6 +295,7 @@ def run(tier, seed):
                     break
                 idx = np.clip(np.rint(X[0, :] / 1000.0), 0, k - 1).astype(int)
                 counts += np.bincount(idx, minlength=k)
+                first[idx[0]] += 1
         n = counts.sum()
         stim = {"weights": w.tolist(), "dimensions": d, "repeat": rep, "batches": batches}
         sw.case(stim, nontrivial=(special == "zero" or small), sample=dict(stim, fractions=(counts / max(n, 1)).tolist()) if len(sw.samples) < 3 else None)
@@ -308,10 +313,51 @@ def run(tier, seed):
                 if w[i] > 0 and abs(counts[i] - n * w[i]) > 6 * sd_ + 1:
                     problem = f"component {i} (weight {w[i]:.4g}) produced {int(counts[i])} of {int(n)} columns, expected about {n * w[i]:.1f}"
                     break
+        if problem is None and small and rep >= 2:
+            for i in range(k):
+                sd_ = math.sqrt(max(batches * w[i] * (1 - w[i]), 1e-12))
+                if abs(first[i] - batches * w[i]) > 6 * sd_ + 1:
+                    problem = (f"the first column of generate({rep}) comes from component {i} (weight {w[i]:.4g}) in {int(first[i])} of {batches} batches, expected about "
+                               f"{batches * w[i]:.1f}: the columns are not individually distributed according to the mixture")
+                    break
         if problem:
             findings.append(Finding("C14", "Mixture.generate: " + problem, {"kind": "mixture-draws"}, {"oracle": "component frequencies", "stimulus": stim, "counts": counts.tolist()}))
 
-    suites = [st, sh, sx, sd, sw, sg]
+    # ---- laws of the leaf samplers (moderate batches, every run) -----------------------------------
+    slw = Suite("C14.laws", "generate(20000) of StandardNormal1D (temperatures 0.25-100), Normal (3 encodings), Laplace, Uniform: mean and variance of every coordinate vs the "
+                "density misfit describes (|z| < 6 for the mean, 5% for the variance); non-trivial = temperature != 1 or dimension >= 2")
+    lrng = np.random.default_rng(seed * 17 + 140)
+    for ci in range(24 if thorough else 10):
+        kind = ["stdnormal", "stdnormal", "normaldiag", "normalfull", "laplace", "uniform"][ci % 6]
+        d = 1 if kind == "stdnormal" else rnd.choice([1, 2, 3])
+        if kind == "stdnormal":
+            T = rnd.choice([0.25, 4.0, 100.0, 1.0, 2.5])
+            obj, mean, var = D.StandardNormal1D(temperature=T), np.zeros(1), np.array([T])   # misfit m^2 / (2T): N(0, T)
+            desc = {"kind": kind, "temperature": T}
+        elif kind == "uniform":
+            lo = np.array([[rnd.uniform(-3, 0)] for _ in range(d)])
+            hi = lo + np.array([[rnd.uniform(0.5, 4)] for _ in range(d)])
+            obj, mean, var = D.Uniform(lo.copy(), hi.copy()), ((lo + hi) / 2).ravel(), ((hi - lo) ** 2 / 12).ravel()
+            desc = {"kind": kind, "lb": lo.ravel().tolist(), "ub": hi.ravel().tolist()}
+        else:
+            node = distgen._leaf(rnd, d, allow=(kind,), bounds_p=0.0)
+            obj, desc = node.obj, node.desc
+            mean = np.array(desc["mu"])
+            var = 2 * np.array(desc["b"]) ** 2 if kind == "laplace" else (np.array(desc["var"]) if "var" in desc else np.diag(np.array(desc["cov"])))
+        N = 20000
+        with np.errstate(all="ignore"):
+            X = np.array(obj.generate(N, rng=lrng), dtype=float)
+        slw.case(desc, nontrivial=(desc.get("temperature", 1.0) != 1.0 or d >= 2), sample=dict(desc, sample_var=X.var(1).tolist()) if len(slw.samples) < 3 else None)
+        slw.count(f"class={kind}")
+        if X.shape != (d, N):
+            findings.append(Finding("C14", f"{kind}.generate({N}) returned shape {X.shape}", {"kind": "generate-shape", "classes": [kind]}, {"stimulus": desc}))
+            continue
+        z = (X.mean(1) - mean) / np.sqrt(var / N)
+        if np.max(np.abs(z)) > 6 or np.max(np.abs(X.var(1) / var - 1)) > 0.05:
+            findings.append(Finding("C14", f"{kind}.generate: batch mean/variance {X.mean(1).tolist()} / {X.var(1).tolist()} but the density misfit describes has "
+                                    f"{mean.tolist()} / {var.tolist()}", {"kind": "moments", "class": kind}, {"desc": desc}))
+
+    suites = [st, sh, sx, sd, sw, slw, sg]
     # ---- thorough: large batches vs closed-form moments (supporting) -----------------------------
     if thorough:
         sm = Suite("C14.moments", "large i.i.d. batches of generate() vs closed-form first/second moments (|z| < 6): supporting evidence for 'columns are distributed "
